@@ -479,12 +479,14 @@ EXTREME_REPLS = ["''", "'\\\\'", "'\\n\\r\\t'", "'\\&'", "'\\0'", "'\\g<0>\\g<0>
 # glob patterns: none is an error by the manual; all are "extreme or ill-formed"
 GLOBS = ["'['", "'[!'", "'[]'", "'[z-a]'", "'**'", "'***'", "'[[]'", "'" + '*' * 40 + "x'", "'a/../b'", "'/'", "''",
          "'\\'", "'{a,b}'", "'" + 'a' * 2000 + "'", "'[!]'", "'[]]'", "'**/*.txt'", "'*/'", "'[a-'", "'?' ", "'[\\]'",
-         "'" + '[a-z]' * 100 + "'", "'\u00e9*'", "'**x'", "'x**'", "'//'", "'[^a]'", "'*' '*'"]
+         "'" + '[a-z]' * 100 + "'", "'\u00e9*'", "'**x'", "'x**'", "'//'", "'[^a]'", "'*' '*'",
+         # patterns that are empty after pathlib's normalisation
+         "'.'", "'./'", "'./.'", "'.//'", "'a/.'", "'./a'", "'..'", "' '", "'../*'"]
 # file names / strings
 ODD_STRINGS = ["''", '""', "'a b'", "'a/b/c/d'", "'" + 'n' * 300 + "'", "'\u00e9\u00f6'", 'a#b', "'#'", "a'b'\"c\"",
                '@[EXACTLY_TMP]@', '@[EXACTLY_HOME]@/data.txt', '@[ S_STR ]@', '@[S_STR]@@[S_STR]@', "'@[S_STR]@'",
                '"@[UNDEFINED_SYMBOL]@"', '-', '--', "'-rel-act'", 'a\\b', "'${HOME}'", "'*'", "'a:b'", 'a=b', '=x',
-               "sub/", "'sub/../x'", "x/", "':'", "'!'"]
+               "sub/", "'sub/../x'", "x/", "':'", "'!'", "'.'", "'./'", "'..'", "'./.'", "'a/.'", "' '", "'~'", "'~/x'"]
 
 
 # ---------------------------------------------------------------------------------------------
@@ -633,6 +635,13 @@ def file_forms(text):
     yield 'form-feed-lines', text.replace('\n', '\n\x0c\n')
     yield 'nul-line', text + '\x00\n'
     yield 'indented', '\n'.join('   ' + l for l in text.split('\n'))
+    # the file ends with a line that is neither empty (space/tab) nor an instruction: characters that str.isspace
+    # accepts; with and without a final newline
+    for name, tail in (('ff', '\x0c'), ('sp-ff', ' \x0c'), ('vt', '\x0b'), ('fs', '\x1c'), ('nel', '\x85'),
+                       ('ls', '\u2028'), ('nbsp', '\u00a0'), ('ff-ff', '\x0c\x0c'), ('tab-ff-sp', '\t\x0c ')):
+        yield 'ws-tail-' + name, text + tail
+        yield 'ws-tail-nl-' + name, text + tail + '\n'
+        yield 'ws-tail-glued-' + name, text.rstrip('\n') + tail
 
 
 def extreme_structures():
